@@ -640,6 +640,9 @@ static int _parse_inline(qaconf_t *qaconf, FILE *fp, uint8_t flags,
     goto exitloop;                                                          \
 } while (0);
 
+        // callback data of this line; must be defined before any EXITLOOP
+        qaconf_cbdata_t *cbdata = NULL;
+
         if (fgets(buf, MAX_LINESIZE, fp) == NULL) {
             // Check if section was opened and never closed
             if (cbdata_parent != NULL) {
@@ -662,7 +665,7 @@ static int _parse_inline(qaconf_t *qaconf, FILE *fp, uint8_t flags,
         DEBUG("%s (line=%d)", buf, qaconf->lineno);
 
         // Create a callback data
-        qaconf_cbdata_t *cbdata = (qaconf_cbdata_t*) malloc(
+        cbdata = (qaconf_cbdata_t*) malloc(
                 sizeof(qaconf_cbdata_t));
         ASSERT(cbdata != NULL);
         memset(cbdata, '\0', sizeof(qaconf_cbdata_t));
@@ -753,6 +756,11 @@ static int _parse_inline(qaconf_t *qaconf, FILE *fp, uint8_t flags,
                             memmove(wp1 + 1, wp1, wordlen);
                         wp1++;
                         wp2++;
+                        if (*wp2 == '\0') {
+                            // backslash was the last character of the line
+                            doneparsing = true;
+                            break;
+                        }
                     }
                 } else if (*wp2 == ' ' || *wp2 == '\t') {
                     if (qtmark == 0)
@@ -773,7 +781,8 @@ static int _parse_inline(qaconf_t *qaconf, FILE *fp, uint8_t flags,
             DEBUG("  argv[%d]=%s", cbdata->argc - 1, wp1);
 
             // For quoted string, this case can be happened.
-            if (*wp2 == '\0') {
+            // (when the end was already reached, wp2 is past the terminator)
+            if (doneparsing == false && *wp2 == '\0') {
                 doneparsing = true;
             }
         }
